@@ -13,9 +13,9 @@ import (
 	"net/url"
 )
 
-const verifBaseDoc = `{"openapi":"3.0.0","info":{"title":"t","version":"1","license":{"name":"MIT"}},"servers":[{"url":"https://{h}/v1","variables":{"h":{"default":"a"}}}],` +
+const verifBaseDoc = `{"openapi":"3.0.0","info":{"title":"t","version":"1","license":{"name":"MIT"}},"servers":[{"url":"https://{h}/v1","variables":{"h":{"default":"a"}}},{"url":"https://b.example/v2"}],` +
 	`"tags":[{"name":"x","externalDocs":{"url":"https://e"}}],"security":[{"sec":[]}],` +
-	`"paths":{"/a/{id}":{"servers":[{"url":"/p"}],"parameters":[{"$ref":"#/components/parameters/Id"}],"get":{"operationId":"get","tags":["x"],"servers":[{"url":"/o"}],"externalDocs":{"url":"https://e"},"parameters":[{"name":"q","in":"query","schema":{"type":"array","items":{"type":"integer"}},"examples":{"e":{"value":[1]}}},{"name":"c","in":"query","content":{"application/json":{"schema":{"type":"object"}}}},{"name":"q","in":"header","schema":{"type":"string"}}],` +
+	`"paths":{"/a/{id}":{"servers":[{"url":"/p"},{"url":"/p2"}],"parameters":[{"$ref":"#/components/parameters/Id"}],"get":{"operationId":"get","tags":["x"],"servers":[{"url":"/o"}],"externalDocs":{"url":"https://e"},"parameters":[{"name":"q","in":"query","schema":{"type":"array","items":{"type":"integer"}},"examples":{"e":{"value":[1]}}},{"name":"c","in":"query","content":{"application/json":{"schema":{"type":"object"}}}},{"name":"q","in":"header","schema":{"type":"string"}}],` +
 	`"requestBody":{"$ref":"#/components/requestBodies/B"},"responses":{"200":{"$ref":"#/components/responses/R"},"default":{"description":"d","headers":{"X-H":{"$ref":"#/components/headers/H"}},"content":{"application/json":{"schema":{"$ref":"#/components/schemas/S"},"example":{"a":1}}},"links":{"l":{"$ref":"#/components/links/L"}}}},` +
 	`"callbacks":{"cb":{"$ref":"#/components/callbacks/C"},"cbi":{"{$request.body#/v}":{"post":{"parameters":[{"name":"t","in":"query","schema":{"type":"string"}}],"responses":{"200":{"description":"d","headers":{"X-C":{"schema":{"type":"integer"}}}}}}}}},"security":[{}]}}},` +
 	`"components":{"schemas":{"S":{"type":"object","required":["a"],"properties":{"a":{"type":"integer","format":"int32","minimum":0},"n":{"$ref":"#/components/schemas/S"},"l":{"type":"array","items":{"$ref":"#/components/schemas/T"}},"k":{"anyOf":[{"type":"string","maxLength":3},{"type":"integer"}]},"f":{"allOf":[{"type":"string"}],"not":{"type":"integer"}}},"additionalProperties":false,"discriminator":{"propertyName":"a"}},"T":{"oneOf":[{"type":"string","pattern":"^a"},{"type":"number","multipleOf":2}],"default":"a","nullable":true}},` +
